@@ -177,6 +177,24 @@ inductive LangItem where
   | tooShort (actual : Nat)
   deriving DecidableEq, Repr
 
+/-- `Language::code`: `encoding_rs::mem::decode_latin1` of the three code bytes — byte `b` becomes the
+code point `U+00b` (ISO 8859-1 is the first 256 code points of Unicode) -/
+def langCodePoints (code : Bytes) : List Nat := code.map (·.toNat)
+
+/-- `AudioType::from(u8)` -/
+inductive AudioType where
+  | undefined | cleanEffects | hearingImpaired | visualImpairedCommentary
+  | reserved (v : Nat)
+  deriving DecidableEq, Repr
+
+def audioTypeOf (v : Nat) : AudioType :=
+  match v with
+  | 0 => .undefined
+  | 1 => .cleanEffects
+  | 2 => .hearingImpaired
+  | 3 => .visualImpairedCommentary
+  | v => .reserved v
+
 /-- `LanguageIterator` run to exhaustion (`Language::new` asserts 4 bytes) -/
 def languages : Nat → Bytes → R (List LangItem)
   | 0, _ => .ok []
